@@ -65,4 +65,25 @@ Proof.
       - apply gmem_in. auto. }
     intros m1 m2 H1 H2 x. rewrite <- (Heq m1 H1 x), <- (Heq m2 H2 x). reflexivity.
 Qed.
+(* the converse: nothing beyond those three conditions is demanded, so a configuration is rejected
+   only for one of the defects the property lists *)
+Theorem masters_accepted_complete ms :
+  ms <> [] -> Forall (@NoDup G) ms ->
+  (forall m1 m2, In m1 ms -> In m2 ms -> forall x, In x m1 <-> In x m2) ->
+  masters_accepted G geqb ms = true.
+Proof.
+  intros Hne Hnd Hs. unfold masters_accepted. apply andb_true_intro. split.
+  - apply forallb_forall. intros m Hm. apply nodupb_ok. rewrite Forall_forall in Hnd. auto.
+  - destruct ms as [|m0 r]; [congruence|]. apply forallb_forall. intros m Hm.
+    unfold same_set. apply andb_true_intro.
+    pose proof (Hs m0 m (or_introl eq_refl) (or_intror Hm)) as He.
+    split; apply forallb_forall; intros x Hx; apply gmem_in; apply He; exact Hx.
+Qed.
+Theorem masters_accepted_iff ms :
+  masters_accepted G geqb ms = true <->
+  (ms <> [] /\ Forall (@NoDup G) ms /\
+   forall m1 m2, In m1 ms -> In m2 ms -> forall x, In x m1 <-> In x m2).
+Proof.
+  split; [apply masters_accepted_spec|]. intros [H1 [H2 H3]]. apply masters_accepted_complete; assumption.
+Qed.
 End Facts.
